@@ -122,6 +122,42 @@ def run(tier, replay=None):
                     ck.violation("statement %r in %s mode: expected %r, got %r%s" % (src[:150], mode, want[:150], out[:300], (" exit %d %s" % (rc, err[:200])) if rc else ""),
                                  {"statement": src, "mode": mode, "stdout": out})
         ck.part("single statements in three modes", statements=len({j[0] for j in jobs}), runs=len(jobs))
+        # ---- mode agreement where no value is specified: string literals spanning lines whose inner line ends are unusual.  -eval hands the
+        # whole text to the parser; file and REPL mode must group the same lines into the same statement and print the same.
+        ends = {"backslash": "\\", "two backslashes": "\\\\", "escaped quote": '\\"', "blank": " ", "tab": "\t", "semicolon": ";", "open brace": "{", "open bracket": "[",
+                "close brace": "}", "quote pair": '" + "', "backslash n": "\\n", "backslash then blank": "\\ "}
+        ag = []
+        for ename, e in ends.items():
+            for tmpl in ('write("ab%s\ncd")', 'write(#"ab%s\ncd")', 'write("ab%s\n%s\ncd" + "!")', 'write(["x%s\ny", 1][0])', 'if true {\nwrite("p%s\nq")\n}'):
+                ag.append((ename, tmpl % tuple([e] * tmpl.count("%s"))))
+        agjobs = []
+        for ename, txt in ag:
+            agjobs += [(ename, txt, "eval", txt), (ename, txt, "file", txt + "\n"), (ename, txt, "file", txt), (ename, txt, "repl", txt + "\n")]
+        got = {}
+        with concurrent.futures.ThreadPoolExecutor(max_workers=vlib.NCPU) as ex:
+            futs = {ex.submit(run_calc, calc, mode, text, tmpdir, 200000 + k): (ename, txt, mode, text) for k, (ename, txt, mode, text) in enumerate(agjobs)}
+            for f in concurrent.futures.as_completed(futs):
+                ename, txt, mode, text = futs[f]
+                rc, out, err = f.result()
+                ck.cov["evaluations"] += 1
+                ck.cov["traces_validated_against_impl"] += 1
+                if mode == "eval":
+                    norm = out[:-len("nil\n")] if out.endswith("nil\n") else out
+                elif mode == "repl":
+                    norm = out[len("calc repl\n"):] if out.startswith("calc repl\n") else out
+                    norm = norm[:-len("> nil\n")] if norm.endswith("> nil\n") else norm
+                else:
+                    norm = out
+                got.setdefault(txt, []).append((mode, text.endswith("\n"), rc, norm, ename))
+        for txt, runs in got.items():
+            ref = [r for r in runs if r[0] == "eval"][0]
+            if ref[2] != 0 or "Parser:" in ref[3] or "Lexer:" in ref[3] or "RUNTIME ERROR" in ref[3]:
+                continue       # not a statement the parser accepts, or one that fails at run time (its report carries addresses): nothing to agree on
+            for mode, nl, rc, norm, ename in runs:
+                if mode != "eval" and (rc != 0 or norm != ref[3]):
+                    ck.violation("a string literal spanning lines (inner line ends in %s): %r prints %r with -eval but %r in %s mode%s" % (
+                        ename, txt[:120], ref[3][:120], norm[:200], mode, "" if nl or mode == "repl" else " without a final line break"), {"statement": txt, "mode": mode, "stdout": norm})
+        ck.part("mode agreement on string literals spanning lines with unusual inner line ends", statements=len(ag), runs=len(agjobs))
     ck.cov["rule"] = ("all scripts of <= %d statements over 24 statement shapes (incl. a multi-line string inside an open block and inside an open array literal) (plain, value, strings and comments containing { } [ ] \" ;, escaped quote, multi-line block / block with a brace in a string / "
                       "array literal / string, blank and comment lines), each in file mode with and without a final line break and in REPL mode; plus single statements whose values CalcSem specifies, in "
                       "-eval, REPL and file mode; non-trivial = a multi-line statement or a string/comment containing a grouping character" % n)
